@@ -252,7 +252,7 @@ def model_checking(bdir, tier):
             raise vlib.Infra("SparseMatrix (%s): the design-level model violates one of its own invariants:\n%s" % (cfg, mc.out[-3000:]))
         runs.append((cfg, mc))
     neg = vlib.run_tlc(os.path.join(vlib.SPEC, "SparseMatrix.tla"), os.path.join(vlib.SPEC, "SparseMatrix_keepfree.cfg"),
-                       os.path.join(bdir, "mcneg"), workers=2, xmx="1g", timeout=600)
+                       os.path.join(bdir, "mcneg"), workers=2, xmx="1g", timeout=600, extra=("-noGenerateSpecTE",))
     if "Invariant NoDangling is violated" not in neg.out:
         raise vlib.Infra("SparseMatrix: the variant 'clear keeps the free list' does not violate NoDangling "
                          "(the invariant would be vacuous):\n" + neg.out[-2000:])
@@ -278,7 +278,7 @@ def make_execs(bdir, tier, rng):
 def run(pid, tier):
     t0 = time.time()
     rng = random.Random(vlib.seed())
-    bdir = vlib.scratch(pid)
+    bdir = vlib.scratch("%s_%d" % (pid, os.getpid()))      # concurrent runs of the same check do not share scratch
     verdict = vlib.Verdict(pid)
     try:
         mcs, neg = model_checking(bdir, tier)
@@ -347,10 +347,10 @@ def run(pid, tier):
 
 
 def replay(pid, path):
-    bdir = vlib.scratch(pid + "_replay")
+    bdir = vlib.scratch("%s_replay_%d" % (pid, os.getpid()))
     try:
         drv = mxcommon.build(bdir)
-        res = mxcommon.run_chunks(bdir, drv, mxcommon.load_replay(path), "SparseTrace", tag="rp", nproc=1)
+        res = mxcommon.run_chunks(bdir, drv, mxcommon.load_replay(os.path.abspath(path)), "SparseTrace", tag="rp", nproc=1)
         verdict = vlib.Verdict(pid)
         mxcommon.judge(pid, res, verdict)
         return verdict.finish()
